@@ -98,8 +98,12 @@ func (p *Prog) PrivateHelper(h *ssa.Function) bool {
 	}
 	p.private[h] = false // cut recursion
 	ok := func() bool {
-		if h.Parent() != nil || !p.InTarget(h) || len(h.Blocks) == 0 || h.Synthetic != "" {
+		if !p.InTarget(h) || len(h.Blocks) == 0 || h.Synthetic != "" {
 			return false
+		}
+		if h.Parent() != nil {
+			// a local function literal that is only ever called directly by its creator (`add := func(…){…}; add(x)`)
+			return p.localClosure(h)
 		}
 		o := h.Object()
 		if o == nil || o.Exported() {
@@ -531,4 +535,38 @@ func (p *Prog) ConstructedField(v ssa.Value) ssa.Value {
 		return v
 	}
 	return p.Bind(Strip(stored))
+}
+
+// localClosure: function literal h is bound to a local name and only ever called directly, in the function that
+// creates it (it is not returned, stored, passed on or captured by another literal).
+func (p *Prog) localClosure(h *ssa.Function) bool {
+	mc := p.ClosureSite(h)
+	var fv ssa.Value = h
+	if mc != nil {
+		fv = mc
+	}
+	refs := fv.Referrers()
+	if refs == nil {
+		return false // capture-free literal referenced as a bare function value: decided by usedAsValue elsewhere
+	}
+	n := 0
+	for _, r := range *refs {
+		ci, ok := r.(ssa.CallInstruction)
+		if !ok || ci.Common().Value != fv {
+			return false
+		}
+		for _, a := range ci.Common().Args {
+			if a == fv {
+				return false
+			}
+		}
+		if _, isDefer := r.(*ssa.Defer); isDefer {
+			return false
+		}
+		if _, isGo := r.(*ssa.Go); isGo {
+			return false
+		}
+		n++
+	}
+	return n > 0
 }
